@@ -49,6 +49,30 @@ func c07AmbiguityPool() []c07Def {
 	}
 }
 
+// c07AmbiguityVariants: the same two records with their fields DECLARED in the other order (Ya before Xa) -
+// every combination for Pz and Cz.  Whatever is remembered about a field-name set (sorted? in declaration
+// order? in literal order?) must be found again from every spelling of the set.
+func c07AmbiguityVariants() [][]c07Def {
+	var out [][]c07Def
+	decl := func(name string, swapped bool) string {
+		if swapped {
+			return "type " + name + " = {Ya: int; Xa: int}\n"
+		}
+		return "type " + name + " = {Xa: int; Ya: int}\n"
+	}
+	for v := 1; v < 4; v++ {
+		out = append(out, []c07Def{
+			{name: "Pz", src: decl("Pz", v&1 != 0), owns: exact("Pz"), declOnly: true},
+			{name: "Cz", src: decl("Cz", v&2 != 0), owns: exact("Cz"), declOnly: true},
+			{name: "gorigin", src: "let gorigin () =\n  {Xa=0; Ya=0}\n", deps: []int{0}, owns: exact("gorigin"), context: true},
+			{name: "gorigin2", src: "let gorigin2 () =\n  {Ya=0; Xa=0}\n", deps: []int{0}, owns: exact("gorigin2"), context: true},
+			{name: "gmk", src: "let gmk (a:int) =\n  {Xa=a; Ya=a}\n", deps: []int{0, 1}, owns: exact("gmk")},
+			{name: "gmq", src: "let gmq (a:int) =\n  let p = {Pz.Xa=a; Ya=a}\n  let c = {Ya=a; Xa=a}\n  (p, c)\n", deps: []int{0, 1}, owns: exact("gmq")},
+		})
+	}
+	return out
+}
+
 func prefixOwner(names ...string) func(string) bool {
 	return func(n string) bool {
 		for _, p := range names {
@@ -341,6 +365,10 @@ func checkC07(c *core.Ctx) {
 	amb := c07AmbiguityPool()
 	c.Set("ambiguity_pool_size", len(amb))
 	c07ExplorePool(c, sc, fc, amb, [][2]int{{len(amb), maxFiles}})
+	for _, av := range c07AmbiguityVariants() {
+		c07ExplorePool(c, sc, fc, av, [][2]int{{len(av), maxFiles}})
+	}
+	c.Set("ambiguity_pool_field_order_variants", len(c07AmbiguityVariants()))
 	inst := c07InstantiationPool()
 	c.Set("instantiation_pool_size", len(inst))
 	c07ExplorePool(c, sc, fc, inst, [][2]int{{5, maxFiles}})
